@@ -1288,7 +1288,7 @@ _dist = Counter()
 def generate(tier, seed):
     rng = random.Random(seed)
     _dist.clear()
-    n_body = 1600 if tier == "quick" else 14000
+    n_body = 1600 if tier == "quick" else 20000
     cases = []
     for _ in range(n_body):
         r = gen_recipe(rng)
@@ -1301,7 +1301,7 @@ def generate(tier, seed):
             _dist["member " + m["kind"]] += 1
         if len(cs) > 1:
             _dist["body property cases"] += 1
-    n_meta = 500 if tier == "quick" else 5000
+    n_meta = 500 if tier == "quick" else 7000
     for k in range(n_meta):
         c = meta_case(seed, k)
         cases.append(c)
@@ -1338,7 +1338,14 @@ def corpus():
     spec = importlib.util.spec_from_file_location("verif_defects", os.path.join(vlib.VERIF, "corpus", "defects.py"))
     m = importlib.util.module_from_spec(spec)
     spec.loader.exec_module(m)
-    return [(k, f) for k, f in m.ALL.items() if "_C08_" in k]
+    def safe(f):
+        def run():
+            try:
+                return f()
+            except Exception as e:       # a reproducer that cannot even build its class is a finding too
+                return "reproducer raised %s: %s" % (type(e).__name__, e)
+        return run
+    return [(k, safe(f)) for k, f in m.ALL.items() if "_C08_" in k]
 
 
 def distribution(cases):
